@@ -59,5 +59,6 @@ fn vcell_accessors() {
         3 => assert!(ok_is(v.as_bp(), a)),
         _ => assert!(is_err(v.as_bp())),
     }
+    assert!(v.is_nil() == (k % 8 == 4));
     std::mem::forget(v);
 }
